@@ -373,6 +373,7 @@ pub fn generate(stream: &str, tier: &str, seed: u64) -> Vec<String> {
         "l1.fault" => gen_fault(&mut rng, thorough, &mut out),
         "l1.vrf" => gen_vrf(&mut rng, thorough, &mut out),
         "l1.sched" => gen_sched(&mut rng, thorough, &mut out),
+        "l1.sched.read" => gen_sched_read(&mut rng, thorough, &mut out),
         "l1.partial" => gen_partial(&mut rng, thorough, &mut out),
         "l1.dir.c01" => {
             for i in 0..ncases {
@@ -716,17 +717,60 @@ pub fn gen_sched(rng: &mut Rng, thorough: bool, out: &mut Vec<String>) {
             }
         }
         let pair = |rng: &mut Rng, i: usize| format!("{} {}", hex_or_dash(&pool[i]), hex_or_dash(&rng.bytes(3)));
+        // the mutex of the repaired code is taken in spawn order, so every scenario is run in both orders
+        let both = |out: &mut Vec<String>, bound: usize, a: String, b: String| {
+            out.push(format!("sch.enum {bound} {a} | {b}"));
+            out.push(format!("sch.enum {bound} {b} | {a}"));
+        };
         // two publishers on the empty directory, disjoint labels
-        out.push(format!("sch.enum {bound} {} | {}", pair(rng, 0), pair(rng, 1)));
+        both(out, bound, pair(rng, 0), pair(rng, 1));
         out.push(format!("fx.publish {} {}", pair(rng, 0), pair(rng, 1)));
         // two publishers updating the SAME label
-        out.push(format!("sch.enum {bound} {} | {}", pair(rng, 0), pair(rng, 0)));
+        both(out, bound, pair(rng, 0), pair(rng, 0));
         // an update and an insert
-        out.push(format!("sch.enum {bound} {} | {} {}", pair(rng, 1), pair(rng, 2), pair(rng, 3)));
+        both(out, bound, pair(rng, 1), format!("{} {}", pair(rng, 2), pair(rng, 3)));
         out.push(format!("fx.publish {} {}", pair(rng, 2), pair(rng, 3)));
-        // three publishers
-        out.push(format!("sch.enum {} {} | {} | {}", bound.min(2), pair(rng, 0), pair(rng, 4), pair(rng, 2)));
+        // a no-op (re-submission of the current value is not known here: a fresh value) and three publishers
+        let (a, b, c) = (pair(rng, 0), pair(rng, 4), pair(rng, 2));
+        out.push(format!("sch.enum {} {a} | {b} | {c}", bound.min(2)));
+        out.push(format!("sch.enum {} {c} | {a} | {b}", bound.min(2)));
+        out.push(format!("sch.enum {} {b} | {c} | {a}", bound.min(2)));
         if !thorough {
+            break;
+        }
+    }
+}
+
+
+/// `l1.sched.read` (C13): read requests on a second (read-only) instance interleaved with a publish.
+pub fn gen_sched_read(rng: &mut Rng, thorough: bool, out: &mut Vec<String>) {
+    let rt = rt();
+    let bound = if thorough { 3 } else { 2 };
+    for (cfg, rcache) in [("wv1", "none"), ("exp", "none"), ("wv1", "default"), ("exp", "1ms")] {
+        out.push(format!("fx.reset {cfg} none off"));
+        out.push(format!("ck {}", key_hex(&rt)));
+        let pool = user_pool(rng, 4);
+        for u in &pool {
+            for v in 1..=6u64 {
+                for fresh in [true, false] {
+                    out.push(format!("vrf {} {} {} {}", hex_or_dash(u), if fresh { "F" } else { "S" }, v, show_label(&vrf_label(&rt, cfg, u, fresh, v))));
+                }
+            }
+        }
+        let pair = |rng: &mut Rng, i: usize| format!("{} {}", hex_or_dash(&pool[i]), hex_or_dash(&rng.bytes(3)));
+        out.push(format!("fx.publish {} {} {}", pair(rng, 0), pair(rng, 1), pair(rng, 2)));
+        out.push(format!("fx.publish {} {}", pair(rng, 0), pair(rng, 1)));
+        let u0 = hex_or_dash(&pool[0]);
+        let u2 = hex_or_dash(&pool[2]);
+        // the publish updates label 0 (and inserts label 3) while it is being read
+        let batch = format!("{} {}", pair(rng, 0), pair(rng, 3));
+        out.push(format!("sch.read {bound} {rcache} history {u0} complete || {batch}"));
+        out.push(format!("sch.read {bound} {rcache} lookup {u0} || {batch}"));
+        out.push(format!("sch.read {bound} {rcache} history {u2} complete || {batch}"));
+        out.push(format!("sch.read {bound} {rcache} lookup {u2} | epochhash || {batch}"));
+        out.push(format!("sch.read {bound} {rcache} audit 0 2 || {batch}"));
+        out.push(format!("sch.read {} {rcache} history {u0} recent:1 | audit 1 2 || {batch}", bound.min(2)));
+        if !thorough && rcache == "default" {
             break;
         }
     }
